@@ -947,6 +947,111 @@ func c16Probes(res *hx.Result, rng *hx.Rng) [4]bool {
 	return on
 }
 
+
+// ---------- concurrent part: racing removals of one object ----------
+
+// c16Stress adds three objects with two subscribers each, then removes one of them from several
+// goroutines at once (Service.Remove ×8, remote terminate ×2) while calls are in flight, and
+// evaluates the property on what the implementation did: hook exactly once, every subscriber told
+// exactly once, the other objects untouched and callable, later calls refused.
+func c16Stress(res *hx.Result, rng *hx.Rng, rounds int) {
+	for round := 0; round < rounds; round++ {
+		r, err := c16NewRun(res, rng)
+		if err != nil {
+			res.Fail("harness-setup", err.Error())
+			return
+		}
+		r.allow1 = false
+		for k := 1; k <= 3; k++ {
+			r.opAddBegin(k, r.nextSeed+int64(k))
+			r.opAddEnd(k, true)
+			for c := 0; c < 2; c++ {
+				r.opSend(c16Frame{conn: c, obj: r.id[k], act: 3, arg: r.id[k], sig: 102, uid: uint64(2000 + 10*k + c)})
+			}
+		}
+		victim := 1 + rng.Intn(3)
+		vid := r.id[victim]
+		start := make(chan struct{})
+		var wg sync.WaitGroup
+		var okRemoves int32
+		var mu sync.Mutex
+		for g := 0; g < 8; g++ {
+			wg.Add(1)
+			go func() {
+				defer wg.Done()
+				<-start
+				if r.svc.Remove(vid) == nil {
+					mu.Lock()
+					okRemoves++
+					mu.Unlock()
+				}
+			}()
+		}
+		base := r.nextMsg
+		r.nextMsg += 10
+		for g := 0; g < 2; g++ {
+			wg.Add(1)
+			go func(g int) {
+				defer wg.Done()
+				<-start
+				r.env.conns[g].send(net.Call, r.sid, vid, 3, base+uint32(g), svU32(vid))
+				r.env.conns[2].send(net.Call, r.sid, vid, c16Hello, base+4+uint32(g), svStr("x"))
+			}(g)
+		}
+		close(start)
+		wg.Wait()
+		// the mailbox of the victim is FIFO: once these are answered everything sent above was handled
+		for g := 0; g < 2; g++ {
+			r.env.conns[g].waitSeen(base+uint32(g), 3*time.Second)
+			r.env.conns[2].waitSeen(base+4+uint32(g), 3*time.Second)
+		}
+		r.env.syncAll()
+		perConn := make([][]net.Message, len(r.env.conns))
+		for ci, c := range r.env.conns {
+			perConn[ci] = c.take()
+		}
+		desc := fmt.Sprintf("3 objects with 2 subscribers each; object %d removed by 8 concurrent Service.Remove and 2 concurrent remote terminate calls, 2 method calls in flight", vid)
+		h, _ := r.actors[victim].counts()
+		if h != 1 {
+			res.Fail("concurrent-remove-hook", fmt.Sprintf("%s: OnTerminate ran %d times", desc, h))
+		}
+		if okRemoves > 1 {
+			res.Fail("concurrent-remove-twice", fmt.Sprintf("%s: %d Service.Remove calls reported success", desc, okRemoves))
+		}
+		for _, sb := range r.subs {
+			n := 0
+			for i := range perConn[sb.conn] {
+				m := &perConn[sb.conn][i]
+				if m.Header.Type == net.Error && m.Header.ID == sb.mid && svTypeCode(m) == 2 {
+					n++
+				}
+			}
+			want := 0
+			if sb.actor == victim {
+				want = 1
+			}
+			if n != want {
+				res.Fail("concurrent-remove-notice", fmt.Sprintf("%s: subscriber (conn %d, message id %d) of actor %d received %d termination notices, expected %d", desc, sb.conn, sb.mid, sb.actor, n, want))
+			}
+		}
+		r.phase[victim] = phRemoved
+		r.removedIDs = append(r.removedIDs, vid)
+		for k := 1; k <= 3; k++ {
+			if k == victim {
+				continue
+			}
+			if hk, _ := r.actors[k].counts(); hk != 0 {
+				res.Fail("concurrent-remove-frame", fmt.Sprintf("%s: OnTerminate of another object (actor %d) ran %d times", desc, k, hk))
+			}
+		}
+		r.ops, r.descs = nil, []string{desc}
+		r.epilogue() // every live object still callable, the removed one refused (oracles inside)
+		r.finish()
+		res.Count(fmt.Sprintf("stress %d %d", round, vid), true)
+		res.Dist("concurrent-removal-round")
+	}
+}
+
 func runC16(res *hx.Result, rng *hx.Rng, tier string, outdir string) {
 	res.Rule = "operation sequences (about 40 operations) over 6 actors, 3 connections, 2 signals on a real bus.Service: Add in two halves with " +
 		"operations inside Activate, seeds reused to force index collisions, failing activations, Remove of live/removed/pending/failed/unknown " +
@@ -996,4 +1101,9 @@ func runC16(res *hx.Result, rng *hx.Rng, tier string, outdir string) {
 		cf.Add("tcases", r.caseTerm(), fmt.Sprintf("case %d: %s", i, r.trace()))
 	}
 	cf.Flush()
+	rounds := 40
+	if tier == "thorough" {
+		rounds = 400
+	}
+	c16Stress(res, rng, rounds)
 }
